@@ -1,6 +1,6 @@
 """Static text of MANIFEST.json (claims per property, not-applicable reasons)."""
 
-FIX_COMMITS = ['4d9d134', 'f54a28a', 'a4ae092', 'c891418', '64aab20', '1d1cf24', '916dd96', '70f0952', 'a087607', 'dcd7c22', '2f66dcb', '296795c', '78699d2', '09de1e4', '5d4d796', '649d3b0', '7c47f12', 'cfa2159', '09fee46', '0f13caa', 'e7f9f7c', '9e55caf', 'e743bc0', '87e1be6']
+FIX_COMMITS = ['4d9d134', 'f54a28a', 'a4ae092', 'c891418', '64aab20', '1d1cf24', '916dd96', '70f0952', 'a087607', 'dcd7c22', '2f66dcb', '296795c', '78699d2', '09de1e4', '5d4d796', '649d3b0', '7c47f12', 'cfa2159', '09fee46', '0f13caa', 'e7f9f7c', '9e55caf', 'e743bc0', '87e1be6', 'af1585c', '651e1aa']
 
 _NOTE = ('Trusted: cbmc/goto-instrument 6.11 (DFCC) + MiniSat; the extraction rules R1-R12 (DESIGN 3.1); every stub contract in the unit '
          'templates and /verif/shim (listed per unit in the evidence under replaced_by_contract / assumptions); bit-precise 64-bit machine '
